@@ -75,8 +75,8 @@ def body(c):
     # ---- mode M ---------------------------------------------------------------------------------------------------------
     acts = [a for a in ACTIONS if a != "Cancel"]
     if c.quick:
-        model_check(c, "3 requests over 3 keys, batch 1-3, all cache modes, loader Ok: invariants",
-                    consts([1, 2, 3], 3, errs=False, cancels=False, **dict(all_cfg, prefeds=[[]])), False, 900, acts)
+        model_check(c, "3 requests over 3 keys, batch 1-3, cache none/map/lru1/lru2, loader Ok: invariants",
+                    consts([1, 2, 3], 3, errs=False, cancels=False, **dict(all_cfg, prefeds=[[]], modes=MODES[:4])), False, 900, acts)
         model_check(c, "2 requests over 2 keys, batch 1-3, all cache modes, pre-fed cache, Ok/Err, cancellation: invariants + liveness",
                     consts([1, 2], 2, **all_cfg), True, 900, ACTIONS)
     else:
@@ -100,7 +100,7 @@ def body(c):
                     simulate=400 if c.quick else 4000, depth=40, seed=c.seed)
     sim6 = generate(c, "simulation: 6 requests over 5 keys, batch 1-4, LRU(3), keys unknown to the loader",
                     consts([1, 2, 3, 4, 5], 6, mbs=[1, 2, 3, 4], modes=MODES + ["lru3"], prefeds=[[], [1, 2]], holesets=[[], [5]]),
-                    workers=1, simulate=120 if c.quick else 1200, depth=60, seed=c.seed)
+                    workers=1, simulate=80 if c.quick else 1200, depth=60, seed=c.seed)
     cases = []
     for src, lst in (("bfs", bfs), ("sim3", sim3), ("sim6", sim6)):
         for s in lst:
